@@ -99,17 +99,18 @@ def d1Of (d : Dir) : Dir :=
       | none => d
     | none => d
 
-/-- the directory after the inverse-whitening step -/
-def d2Of (inv : Arr → Arr) (d1 : Dir) : Dir :=
+/-- the directory after the inverse-whitening step; `e` = the inverse of the identity that stands for a missing
+whitening matrix (`inv (eye one nc)`) -/
+def d2Of (inv : Arr → Arr) (d1 : Dir) (e : Arr) : Dir :=
   (match readFile d1 ["whitening_mat_inv.npy"] with
     | some a => (some (atleast 2 (squeeze (scrub a))), d1)
     | none =>
       match (readFile d1 ["whitening_mat.npy"]).map fun a => atleast 2 (squeeze (scrub a)) with
       | some w => ((none : Option Arr), d1 ++ [("whitening_mat_inv.npy", inv w)])
-      | none => (none, d1 ++ [("whitening_mat_inv.npy", ({ shape := [], data := [] } : Arr))])).2
+      | none => (none, d1 ++ [("whitening_mat_inv.npy", e)])).2
 
-theorem load_core (inv : Arr → Arr) (d : Dir) (v : View) (d' : Dir) (h : load inv d = .ok (v, d')) :
-    d' = d2Of inv (d1Of d) ∧
+theorem load_core (inv : Arr → Arr) {one : Cell} (d : Dir) (v : View) (d' : Dir) (h : load inv d one = .ok (v, d')) :
+    d' = d2Of inv (d1Of d) (inv (eye one (v.channelMap.shape.headD 0))) ∧
     (findPath d ["spike_clusters.npy", "spikes.clusters*.npy"] = none →
       ∃ f a, findPath d ["spike_templates.npy", "spikes.templates*.npy"] = some f ∧ d.lookup f = some a ∧
         v.spikeClusters = squeeze (scrub a) ∧ v.spikeTemplates = squeeze (scrub a)) := by
@@ -130,8 +131,8 @@ theorem load_core (inv : Arr → Arr) (d : Dir) (v : View) (d' : Dir) (h : load 
        simp_all)
 
 
-theorem d2Of_eq (inv : Arr → Arr) (d1 : Dir) :
-    ∃ w, d2Of inv d1 = d1 ++
+theorem d2Of_eq (inv : Arr → Arr) (d1 : Dir) (e : Arr) :
+    ∃ w, d2Of inv d1 e = d1 ++
       (if d1.lookup "whitening_mat_inv.npy" = none then [("whitening_mat_inv.npy", w)] else []) := by
   unfold d2Of
   rw [readFile_exact d1 "whitening_mat_inv.npy" (by decide)]
@@ -140,7 +141,7 @@ theorem d2Of_eq (inv : Arr → Arr) (d1 : Dir) :
   · next hn =>
     split
     · next w _ => exact ⟨inv w, by simp [hn]⟩
-    · exact ⟨⟨[], []⟩, by simp [hn]⟩
+    · exact ⟨e, by simp [hn]⟩
 
 theorem sc_not_mem (d : Dir) (hn : findPath d ["spike_clusters.npy", "spikes.clusters*.npy"] = none) :
     "spike_clusters.npy" ∉ d.map (·.1) := by
@@ -150,7 +151,7 @@ theorem sc_not_mem (d : Dir) (hn : findPath d ["spike_clusters.npy", "spikes.clu
   cases this
 
 /-- shape of the directory returned by a successful load -/
-theorem load_dir (inv : Arr → Arr) (d : Dir) (v : View) (d' : Dir) (h : load inv d = .ok (v, d')) :
+theorem load_dir (inv : Arr → Arr) {one : Cell} (d : Dir) (v : View) (d' : Dir) (h : load inv d one = .ok (v, d')) :
     ∃ a w, d' = d ++
         (if findPath d ["spike_clusters.npy", "spikes.clusters*.npy"] = none then [("spike_clusters.npy", a)] else []) ++
         (if d.lookup "whitening_mat_inv.npy" = none then [("whitening_mat_inv.npy", w)] else []) ∧
@@ -158,7 +159,7 @@ theorem load_dir (inv : Arr → Arr) (d : Dir) (v : View) (d' : Dir) (h : load i
         ∃ f, findPath d ["spike_templates.npy", "spikes.templates*.npy"] = some f ∧ d.lookup f = some a ∧
           v.spikeClusters = squeeze (scrub a) ∧ v.spikeTemplates = squeeze (scrub a)) := by
   obtain ⟨hd, hc⟩ := load_core inv d v d' h
-  obtain ⟨w, hw⟩ := d2Of_eq inv (d1Of d)
+  obtain ⟨w, hw⟩ := d2Of_eq inv (d1Of d) (inv (eye one (v.channelMap.shape.headD 0)))
   by_cases hn : findPath d ["spike_clusters.npy", "spikes.clusters*.npy"] = none
   · obtain ⟨f, a, hf, ha, hsc, hst⟩ := hc hn
     have h1 : d1Of d = d ++ [("spike_clusters.npy", a)] := by simp only [d1Of, hn, hf, ha]
@@ -177,7 +178,7 @@ theorem load_dir (inv : Arr → Arr) (d : Dir) (v : View) (d' : Dir) (h : load i
     rw [hd, hw, h1]
     simp [hn]
 
-theorem load_frame (inv : Arr → Arr) (d : Dir) (v : View) (d' : Dir) (h : load inv d = .ok (v, d')) :
+theorem load_frame (inv : Arr → Arr) {one : Cell} (d : Dir) (v : View) (d' : Dir) (h : load inv d one = .ok (v, d')) :
     (∀ name a, d.lookup name = some a → d'.lookup name = some a) ∧
     (∀ name ∈ d'.map (·.1), name ∈ d.map (·.1) ∨ name = "spike_clusters.npy" ∨ name = "whitening_mat_inv.npy") ∧
     (("spike_clusters.npy" ∈ d'.map (·.1) ∧ "spike_clusters.npy" ∉ d.map (·.1)) ↔
@@ -215,14 +216,14 @@ theorem load_frame (inv : Arr → Arr) (d : Dir) (v : View) (d' : Dir) (h : load
   · simp only [List.length_append]
     split <;> split <;> simp
 
-theorem load_rejects_nonmonotone (inv : Arr → Arr) (d : Dir) (s : Arr) (hs : d.lookup "spike_times.npy" = some s)
-    (hm : monotone (scrub s).data = false) : load inv d = .error .nonMonotone := by
+theorem load_rejects_nonmonotone (inv : Arr → Arr) {one : Cell} (d : Dir) (s : Arr) (hs : d.lookup "spike_times.npy" = some s)
+    (hm : monotone (scrub s).data = false) : load inv d one = .error .nonMonotone := by
   simp only [load, bind, Except.bind, pure, Except.pure, throw, throwThe, MonadExceptOf.throw, hs]
   simp [hm]
 
-theorem load_rejects_two_cluster_files (inv : Arr → Arr) (d : Dir)
+theorem load_rejects_two_cluster_files (inv : Arr → Arr) {one : Cell} (d : Dir)
     (h1 : (findPath d ["spike_clusters.npy"]).isSome) (h2 : (findPath d ["spikes.clusters*.npy"]).isSome)
-    (v : View) (d' : Dir) : load inv d ≠ .ok (v, d') := by
+    (v : View) (d' : Dir) : load inv d one ≠ .ok (v, d') := by
   intro h
   simp only [load, bind, Except.bind, pure, Except.pure, throw, throwThe, MonadExceptOf.throw, h1, h2,
     Bool.and_self, if_true] at h
@@ -240,7 +241,7 @@ theorem scrub_spec (a : Arr) :
     Option.getD_some]
   cases a.data[i] <;> rfl
 
-theorem clusters_default (inv : Arr → Arr) (d : Dir) (v : View) (d' : Dir) (h : load inv d = .ok (v, d'))
+theorem clusters_default (inv : Arr → Arr) {one : Cell} (d : Dir) (v : View) (d' : Dir) (h : load inv d one = .ok (v, d'))
     (hn : findPath d ["spike_clusters.npy", "spikes.clusters*.npy"] = none) :
     v.spikeClusters = v.spikeTemplates ∧
     ∃ f, findPath d ["spike_templates.npy", "spikes.templates*.npy"] = some f ∧
